@@ -170,90 +170,113 @@ func main() {
 		b    []byte
 	}{{"absent", nil}, {"v4", []byte{203, 0, 113, 9}}, {"v4mapped", net.ParseIP("203.0.113.9").To16()}, {"v6", net.ParseIP("2001:db8:99::9")}, {"5bytes", []byte{1, 2, 3, 4, 5}}, {"0bytes", []byte{}}}
 	ttls := map[string]map[uint64]bool{"New": {}, "Update": {}}
+	overrides := []string{"none", "port", "phantom", "v4-in-v6-slot", "v4mapped-in-v6-slot"}
+	secrets := [][]byte{vfix.Secret(80), vfix.Secret(81)}
+	libvers := []uint32{4}
+	if a.Thorough() {
+		// thorough: 12 secrets (phantoms in every configured subnet, many ports), every client library version
+		// (each selects phantom and port differently), port overrides at the edges of the 16-bit range
+		overrides = append(overrides, "port0", "port1", "port65535", "port65536", "portmax")
+		secrets = nil
+		for i := 0; i < 12; i++ {
+			secrets = append(secrets, vfix.Secret(80+i))
+		}
+		libvers = []uint32{0, 1, 2, 3, 4}
+	}
+	portOv := map[string]uint32{"port": 8443, "port0": 0, "port1": 1, "port65535": 65535, "port65536": 65536, "portmax": 4294967295}
 	for _, tp := range tps {
 		for _, v6 := range []bool{false, true} {
 			for _, rg := range registrants {
 				for _, gen := range []uint32{1, 2} {
-					for _, ov := range []string{"none", "port", "phantom", "v4-in-v6-slot", "v4mapped-in-v6-slot"} {
-						for si2, secret := range [][]byte{vfix.Secret(80), vfix.Secret(81)} {
-							if !e.Case() {
-								goto done
-							}
-							id := fmt.Sprintf("transport=%s;v6=%v;registrant=%s;gen=%d;override=%s;secret=%d", tp.name, v6, rg.name, gen, ov, si2)
-							rm := vfix.Manager(nil, sel, &vfix.Tester{}, vfix.AllWrapping, nil)
-							_ = rm.AddTransport(pb.TransportType_DTLS, &dtls.Transport{})
-							m := vfix.Msg{Secret: secret, Transport: tp.tt, Params: tp.params, V4: !v6, V6: v6, Gen: gen, LibVer: 4, Covert: "93.184.216.34:443", Source: pb.RegistrationSource_API, Addr: rg.b}
-							w := m.Wrapper()
-							switch ov {
-							case "port":
-								w.RegistrationResponse = &pb.RegistrationResponse{DstPort: proto.Uint32(8443)}
-							case "v4-in-v6-slot":
-								w.RegistrationResponse = &pb.RegistrationResponse{Ipv6Addr: net.ParseIP("198.51.100.7").To4(), DstPort: proto.Uint32(8443)}
-							case "v4mapped-in-v6-slot":
-								w.RegistrationResponse = &pb.RegistrationResponse{Ipv6Addr: net.ParseIP("198.51.100.7").To16(), DstPort: proto.Uint32(8443)}
-							case "phantom":
-								w.RegistrationResponse = &pb.RegistrationResponse{Ipv4Addr: proto.Uint32(0xC6336407), Ipv6Addr: net.ParseIP("2001:db8:1::7"), DstPort: proto.Uint32(8443)}
-							}
-							b, _ := proto.Marshal(w)
-							regs, err := rm.VerifParseRegMessage(b)
-							if err != nil || len(regs) != 1 {
-								continue // not admitted by the station: nothing is announced
-							}
-							reg := regs[0]
-							si.take()
-							// validated -> New ; activated -> Update (real code paths: AddRegistration, MarkActive)
-							rm.AddRegistration(reg)
-							rm.MarkActive(reg)
-							msgs := si.take()
-							if len(msgs) != 2 {
-								e.Violation("announcement-count", fmt.Sprintf("%s: %d messages published for validate+activate", id, len(msgs)), map[string]any{"case": id})
-								continue
-							}
-							e.Nontrivial(id)
-							for i, raw := range msgs {
-								s2d := &pb.StationToDetector{}
-								if err := proto.Unmarshal(raw, s2d); err != nil {
-									e.Violation("announcement-unparsable", id, map[string]any{"case": id})
+					for _, ov := range overrides {
+						for si2x, secret := range secrets {
+							for _, lv := range libvers {
+								si2 := si2x
+								if !e.Case() {
+									goto done
+								}
+								id := fmt.Sprintf("transport=%s;v6=%v;registrant=%s;gen=%d;override=%s;secret=%d", tp.name, v6, rg.name, gen, ov, si2)
+								if lv != 4 {
+									id += fmt.Sprintf(";libver=%d", lv)
+								}
+								rm := vfix.Manager(nil, sel, &vfix.Tester{}, vfix.AllWrapping, nil)
+								_ = rm.AddTransport(pb.TransportType_DTLS, &dtls.Transport{})
+								m := vfix.Msg{Secret: secret, Transport: tp.tt, Params: tp.params, V4: !v6, V6: v6, Gen: gen, LibVer: lv, Covert: "93.184.216.34:443", Source: pb.RegistrationSource_API, Addr: rg.b}
+								w := m.Wrapper()
+								if pv, ok := portOv[ov]; ok && ov != "port" {
+									w.RegistrationResponse = &pb.RegistrationResponse{DstPort: proto.Uint32(pv)}
+								}
+								switch ov {
+								case "port":
+									w.RegistrationResponse = &pb.RegistrationResponse{DstPort: proto.Uint32(8443)}
+								case "v4-in-v6-slot":
+									w.RegistrationResponse = &pb.RegistrationResponse{Ipv6Addr: net.ParseIP("198.51.100.7").To4(), DstPort: proto.Uint32(8443)}
+								case "v4mapped-in-v6-slot":
+									w.RegistrationResponse = &pb.RegistrationResponse{Ipv6Addr: net.ParseIP("198.51.100.7").To16(), DstPort: proto.Uint32(8443)}
+								case "phantom":
+									w.RegistrationResponse = &pb.RegistrationResponse{Ipv4Addr: proto.Uint32(0xC6336407), Ipv6Addr: net.ParseIP("2001:db8:1::7"), DstPort: proto.Uint32(8443)}
+								}
+								b, _ := proto.Marshal(w)
+								regs, err := rm.VerifParseRegMessage(b)
+								if err != nil || len(regs) != 1 {
+									continue // not admitted by the station: nothing is announced
+								}
+								reg := regs[0]
+								si.take()
+								// validated -> New ; activated -> Update (real code paths: AddRegistration, MarkActive)
+								rm.AddRegistration(reg)
+								rm.MarkActive(reg)
+								msgs := si.take()
+								if len(msgs) != 2 {
+									e.Violation("announcement-count", fmt.Sprintf("%s: %d messages published for validate+activate", id, len(msgs)), map[string]any{"case": id})
 									continue
 								}
-								state := []string{"New", "Update"}[i]
-								if s2d.GetOperation().String() != state {
-									e.Violation("announcement-operation", fmt.Sprintf("%s: message %d has operation %v", id, i, s2d.GetOperation()), map[string]any{"case": id})
-								}
-								resp := det.handle(s2d, 0)
-								// expected key, computed independently from the registration
-								pp, _ := netip.AddrFromSlice(reg.PhantomIp)
-								pp = pp.Unmap()
-								prefix := "t-"
-								if tp.tt == pb.TransportType_DTLS {
-									prefix = "u-"
-								}
-								var key string
-								if pp.Is6() {
-									key = fmt.Sprintf("%s_-%s-:%d", prefix, pp, reg.PhantomPort)
-								} else {
-									ca, ok := netip.AddrFromSlice(rg.b)
-									if !ok {
-										key = "<registrant is not an address>"
+								e.Nontrivial(id)
+								for i, raw := range msgs {
+									s2d := &pb.StationToDetector{}
+									if err := proto.Unmarshal(raw, s2d); err != nil {
+										e.Violation("announcement-unparsable", id, map[string]any{"case": id})
+										continue
+									}
+									state := []string{"New", "Update"}[i]
+									if s2d.GetOperation().String() != state {
+										e.Violation("announcement-operation", fmt.Sprintf("%s: message %d has operation %v", id, i, s2d.GetOperation()), map[string]any{"case": id})
+									}
+									resp := det.handle(s2d, 0)
+									// expected key, computed independently from the registration
+									pp, _ := netip.AddrFromSlice(reg.PhantomIp)
+									pp = pp.Unmap()
+									prefix := "t-"
+									if tp.tt == pb.TransportType_DTLS {
+										prefix = "u-"
+									}
+									var key string
+									if pp.Is6() {
+										key = fmt.Sprintf("%s_-%s-:%d", prefix, pp, reg.PhantomPort)
 									} else {
-										key = fmt.Sprintf("%s%s-%s-:%d", prefix, ca.Unmap(), pp, reg.PhantomPort)
+										ca, ok := netip.AddrFromSlice(rg.b)
+										if !ok {
+											key = "<registrant is not an address>"
+										} else {
+											key = fmt.Sprintf("%s%s-%s-:%d", prefix, ca.Unmap(), pp, reg.PhantomPort)
+										}
 									}
-								}
-								want := fmt.Sprintf("prefill_left=0 new=[%s=%d]", key, s2d.GetTimeoutNs())
-								if resp == "prefill_left=0 new=[]" {
-									e.Violation("announcement-ignored-by-detector:registrant="+rg.name, fmt.Sprintf("%s: %s message {phantom %q client %q proto %v port %d} is rejected by the detector's session rules", id, state, s2d.GetPhantomIp(), s2d.GetClientIp(), s2d.GetProto(), s2d.GetDstPort()), map[string]any{"case": id})
-								} else if resp != want {
-									e.Violation("announcement-does-not-match-registration", fmt.Sprintf("%s: detector session %s, expected %s", id, resp, want), map[string]any{"case": id})
-								}
-								// the registrant address itself must be carried
-								if ca, ok := netip.AddrFromSlice(rg.b); ok && s2d.GetClientIp() != "" {
-									if got, err := netip.ParseAddr(s2d.GetClientIp()); err != nil || got.Unmap() != ca.Unmap() {
-										e.Violation("registrant-address-altered", fmt.Sprintf("%s: announced client %q", id, s2d.GetClientIp()), map[string]any{"case": id})
+									want := fmt.Sprintf("prefill_left=0 new=[%s=%d]", key, s2d.GetTimeoutNs())
+									if resp == "prefill_left=0 new=[]" {
+										e.Violation("announcement-ignored-by-detector:registrant="+rg.name, fmt.Sprintf("%s: %s message {phantom %q client %q proto %v port %d} is rejected by the detector's session rules", id, state, s2d.GetPhantomIp(), s2d.GetClientIp(), s2d.GetProto(), s2d.GetDstPort()), map[string]any{"case": id})
+									} else if resp != want {
+										e.Violation("announcement-does-not-match-registration", fmt.Sprintf("%s: detector session %s, expected %s", id, resp, want), map[string]any{"case": id})
 									}
-								}
-								ttls[state][s2d.GetTimeoutNs()] = true
-								if len(e.Out.Samples) < 4 && i == 0 && si2 == 0 && rg.name == "v4" {
-									e.Sample(map[string]any{"case": id, "message": fmt.Sprintf("%v", s2d), "detector": resp})
+									// the registrant address itself must be carried
+									if ca, ok := netip.AddrFromSlice(rg.b); ok && s2d.GetClientIp() != "" {
+										if got, err := netip.ParseAddr(s2d.GetClientIp()); err != nil || got.Unmap() != ca.Unmap() {
+											e.Violation("registrant-address-altered", fmt.Sprintf("%s: announced client %q", id, s2d.GetClientIp()), map[string]any{"case": id})
+										}
+									}
+									ttls[state][s2d.GetTimeoutNs()] = true
+									if len(e.Out.Samples) < 4 && i == 0 && si2 == 0 && rg.name == "v4" {
+										e.Sample(map[string]any{"case": id, "message": fmt.Sprintf("%v", s2d), "detector": resp})
+									}
 								}
 							}
 						}
